@@ -32,6 +32,7 @@ import (
 	"net"
 	"os"
 	"path/filepath"
+	"runtime"
 	"sort"
 	"strings"
 	"sync"
@@ -817,6 +818,95 @@ func (e *c02Env) rawBodyFields(b *c02Block) {
 	}
 }
 
+// State carried from one decode to the next (recycled decoding containers, buffers appended to): back to back on one
+// goroutine, with nothing else decoded in between,
+//   (1) a body whose container is malformed AFTER its uncles field (withdrawals section of one byte; for the legacy
+//       layout: a malformed transactions section) and whose uncles field is a PREFIX U[:p] of the genuine uncles bytes,
+//   (2) the genuine body with its uncles field replaced by the rest U[p:] (left-over ++ own = genuine): not a body of
+//       this block, must be rejected,
+//   (3) the genuine body: must be accepted; also (1) directly followed by (3).
+// Repeated, because pooled objects are per scheduler slot and dropped by the garbage collector.
+func (e *c02Env) carriedState(b *c02Block, reps int) {
+	if b.body == nil {
+		return
+	}
+	runtime.LockOSThread()
+	defer runtime.UnlockOSThread()
+	r := e.c.Rng
+	key := b.key(1)
+	sh := b.header.WithdrawalsHash != nil
+	var txs, wds [][]byte
+	for _, tx := range b.body.Transactions {
+		x, _ := tx.MarshalBinary()
+		txs = append(txs, x)
+	}
+	for _, w := range b.body.Withdrawals {
+		x, _ := rlp.EncodeToBytes(w)
+		wds = append(wds, x)
+	}
+	if txs == nil {
+		txs = [][]byte{}
+	}
+	if wds == nil {
+		wds = [][]byte{}
+	}
+	U, _ := rlp.EncodeToBytes(b.body.Uncles)
+	enc := func(uncles []byte) []byte {
+		var out []byte
+		var err error
+		if sh {
+			out, err = (&history.PortalBlockBodyShanghai{Transactions: txs, Uncles: uncles, Withdrawals: wds}).MarshalSSZ()
+		} else {
+			out, err = (&history.BlockBodyLegacy{Transactions: txs, Uncles: uncles}).MarshalSSZ()
+		}
+		if err != nil {
+			panic(err)
+		}
+		return out
+	}
+	le := func(v int) []byte { return binary.LittleEndian.AppendUint32(nil, uint32(v)) }
+	// malformed after the uncles: no transactions, uncles = stale, then a one-byte withdrawals section
+	poison := func(stale []byte) []byte {
+		if sh {
+			return append(append(append(append(le(12), le(12)...), le(12+len(stale))...), stale...), 0xff)
+		}
+		// legacy layout: a one-byte transactions section, then the uncles
+		return append(append(append(le(8), le(9)...), 0xff), stale...)
+	}
+	// a genuine Shanghai body cut inside its withdrawals offsets is malformed after the uncles as well
+	genuine := b.bodyC
+	for i := 0; i < reps; i++ {
+		p := len(U)
+		if i%2 == 1 && len(U) > 1 {
+			p = 1 + r.Intn(len(U)-1)
+		}
+		stale, rest := U[:p], U[p:]
+		ps := poison(stale)
+		if sh && i%3 == 2 && len(wds) > 0 {
+			full := enc(stale)
+			ps = full[:len(full)-len(wds[len(wds)-1])-4*len(wds)+1] // cut inside the withdrawals offsets
+		}
+		// the whole sequence as ONE case line (a replay of it is self-contained):
+		//   seq <key> <S> <content~H~B~R>;...  | ok <o|e|p per step>
+		e.seq(key, b.header, [][]byte{ps, enc(rest), genuine, ps, genuine, ps, enc(rest), enc(rest)})
+	}
+}
+
+// seq: ValidateContent on several contents under one key, back to back with nothing in between; ground truth afterwards
+func (e *c02Env) seq(key []byte, src *types.Header, contents [][]byte) {
+	e.setSrc(src)
+	res := make([]byte, len(contents))
+	for i, c := range contents {
+		res[i] = c02obs(func() error { return e.val.ValidateContent(key, c) })[0]
+	}
+	parts := make([]string, len(contents))
+	for i, c := range contents {
+		parts[i] = fmt.Sprintf("%s~%s~%s~%s", hx(c), c02H(e.hv, c), c02B(c), c02R(c))
+	}
+	e.c.Count("seq")
+	e.c.Emit("seq %s %s %s | ok %s", hx(key), c02S(src), strings.Join(parts, ";"), string(res))
+}
+
 // field-level mutations: decode, change one field, re-encode
 func (e *c02Env) fieldMutations(b *c02Block) {
 	r := e.c.Rng
@@ -1347,6 +1437,14 @@ func c02replay(c *Ctx, lines []string) {
 				served = unhx(f[2])
 			}
 			o.orc("replay", unhx(f[1]), served)
+		case "seq":
+			var cs [][]byte
+			for _, p := range strings.Split(f[3], ";") {
+				cs = append(cs, unhx(strings.Split(p, "~")[0]))
+			}
+			runtime.LockOSThread()
+			e.seq(unhx(f[1]), c02parseS(f[2]), cs)
+			runtime.UnlockOSThread()
 		case "orcraw":
 			o := c02NewOracleEnv(e)
 			o.api.raw = true
@@ -1477,6 +1575,25 @@ func runC02(c *Ctx) {
 	for _, b := range all {
 		for _, t := range []byte{0, 3, 1, 2} {
 			e.keyShapes(b, t, thorough)
+		}
+	}
+	// 3d. state carried between consecutive decodes (Shanghai and legacy layouts, with and without uncles)
+	{
+		reps := 6
+		if thorough {
+			reps = 40
+		}
+		cs := []*c02Block{
+			c02synth(c, "carried_sh", true, 1, 0, 2), c02synth(c, "carried_sh_uncle", true, 2, 1, 1),
+			c02synth(c, "carried_sh_0wd", true, 0, 0, 0), c02synth(c, "carried_legacy_uncle", false, 1, 2, 0),
+		}
+		for _, b := range all {
+			if b.mainnet && b.body != nil && b.header.WithdrawalsHash != nil && len(b.bodyC) < 40000 {
+				cs = append(cs, b)
+			}
+		}
+		for _, b := range cs {
+			e.carriedState(b, reps)
 		}
 	}
 	// a block whose hash starts with a zero byte: the 32-byte key selector ++ hash[1:] is not its key
